@@ -77,11 +77,14 @@ def has_assignment(text):
 
 
 class Monitor:
-    def __init__(self, ctx, machine):
+    def __init__(self, ctx, machine, sparse=False):
         self.ctx, self.m = ctx, machine
         self.trace = []
         self.edits = 0
         self.saves = 0
+        # sparse runs: needs_save() (which evaluates every option) is asked only where the program itself asks - at saves,
+        # quits, loads and session starts - and at every third action, instead of after every action (see C17)
+        self.sparse = sparse
 
     @staticmethod
     def assignments(text, k):
@@ -265,6 +268,8 @@ class Monitor:
     saved_with_injection = False
 
     def before(self, sess, act):
+        if self.sparse:
+            return {"values": {s.name: s._user_value for s in sess.state.kconf.unique_defined_syms}, "notes": len(sess.app.notes)}
         with simproc.quiet():
             return {"values": {s.name: s.str_value for s in sess.state.kconf.unique_defined_syms}, "notes": len(sess.app.notes)}
 
@@ -287,14 +292,20 @@ class Monitor:
             with simproc.quiet():
                 if st.needs_save():
                     self.ctx.violate(f"C16/dirty-after-save/{self.dirty_reason(st)}", f"{where}: immediately after a successful save needs_save() is True")
-        ns = self.clean_check(sess, where)
+        if self.sparse and not saved and exited is None and act["key"] not in ("s", "q", "o") and i % 3:
+            ns = None
+        else:
+            ns = self.clean_check(sess, where)
         if exited is not None and exited.startswith("No changes to save"):
             self.ctx.counters["probe:quit-without-asking"] += 1
-        with simproc.quiet():
-            now = {s.name: s.str_value for s in st.kconf.unique_defined_syms}
+        if self.sparse:
+            now = {s.name: s._user_value for s in st.kconf.unique_defined_syms}
+        else:
+            with simproc.quiet():
+                now = {s.name: s.str_value for s in st.kconf.unique_defined_syms}
         if now != pre["values"]:
             self.edits += 1
-        self.trace.append((act["key"], bool(ns), saved))
+        self.trace.append((act["key"], ns if ns is None else bool(ns), saved))
 
     def dirty_reason(self, st):
         k = st.kconf
@@ -320,7 +331,8 @@ class Monitor:
 
 def execute(sc, ctx):
     m = uimachine.Machine(sc, ctx)
-    mon = Monitor(ctx, m)
+    mon = Monitor(ctx, m, sparse=bool(sc.get("sparse", sc.get("hash_salt", 0) & 4)))
+    ctx.counters["probe:sparse-monitor" if mon.sparse else "probe:full-monitor"] += 1
     done = uimachine.run(m, sc["actions"], mon, ctx)
     disk = m.disk()
     ctx.ev("c16", done, mon.trace, digest(disk.decode("utf-8", "replace") if disk else None))
